@@ -5,6 +5,20 @@ from .core import AnalysisError
 from .astutil import fold, try_fold, NotConstant, dotted, unparse
 
 
+def _strip_parents(node):
+    """Copy of an expression without the parent links core.Repo puts on the analysed tree (deepcopy would follow them)."""
+    new = node.__class__()
+    for k, v in node.__dict__.items():
+        if k == '_parent':
+            continue
+        if isinstance(v, ast.AST):
+            v = _strip_parents(v)
+        elif isinstance(v, list):
+            v = [_strip_parents(x) if isinstance(x, ast.AST) else x for x in v]
+        setattr(new, k, v)
+    return new
+
+
 class Closure:
     """NAME = factory(args...) at module level (constraint closures)."""
 
@@ -80,6 +94,11 @@ class Facts:
         except NotConstant:
             pass
         if isinstance(value, ast.Call):
+            expanded = self._factory_result(value)
+            if expanded is not None:
+                # NAME = factory(...) where the factory's body is `return partial(...)`: the binding is that partial with the
+                # factory's parameters replaced by the call's arguments
+                value = expanded
             fn = dotted(value.func)
             if fn in ('partial', 'functools.partial') and value.args and isinstance(value.args[0], ast.Name):
                 kwargs = {}
@@ -128,6 +147,56 @@ class Facts:
                 tbl[kk] = v.id
             self.tables[name] = tbl
             self.table_nodes[name] = st
+
+    def _factory_result(self, call, depth=0):
+        """The `partial(...)` expression a module-level factory call stands for (parameters substituted by the argument
+        expressions), or None when the callee is not such a factory."""
+        if not (isinstance(call.func, ast.Name) and call.func.id in self.funcs) or depth > 4:
+            return None
+        fn = self.funcs[call.func.id]
+        body = [b for b in fn.body if not (isinstance(b, ast.Expr) and isinstance(b.value, ast.Constant))]
+        if len(body) != 1 or not isinstance(body[0], ast.Return) or not isinstance(body[0].value, ast.Call) or fn.decorator_list:
+            return None
+        ret = body[0].value
+        if dotted(ret.func) not in ('partial', 'functools.partial'):
+            inner = self._factory_result(ret, depth + 1) if isinstance(ret.func, ast.Name) and ret.func.id in self.funcs else None
+            if inner is None:
+                return None
+        a = fn.args
+        if a.vararg or a.kwarg or any(isinstance(x, ast.Starred) for x in call.args) or any(k.arg is None for k in call.keywords):
+            return None
+        pos = [x.arg for x in a.posonlyargs + a.args]
+        if len(call.args) > len(pos):
+            return None
+        env = dict(zip(pos, call.args))
+        names = set(pos) | {x.arg for x in a.kwonlyargs}
+        for k in call.keywords:
+            if k.arg not in names or k.arg in env:
+                return None
+            env[k.arg] = k.value
+        defaults = dict(zip(pos[len(pos) - len(a.defaults):], a.defaults))
+        for x, d in zip(a.kwonlyargs, a.kw_defaults):
+            if d is not None:
+                defaults[x.arg] = d
+        for n in names:
+            if n not in env:
+                if n not in defaults:
+                    return None
+                env[n] = defaults[n]
+
+        class Subst(ast.NodeTransformer):
+            def visit_Name(self_inner, node):
+                if isinstance(node.ctx, ast.Load) and node.id in env:
+                    return env[node.id]
+                return node
+
+        import copy
+        out = Subst().visit(copy.deepcopy(_strip_parents(ret)))
+        ast.copy_location(out, call)
+        ast.fix_missing_locations(out)
+        if dotted(out.func) not in ('partial', 'functools.partial'):
+            return self._factory_result(out, depth + 1)
+        return out
 
     def _fold_arg(self, node):
         try:
@@ -274,10 +343,58 @@ class Facts:
         return None
 
     def args_attrs(self, cname):
+        """Attribute names args() of class `cname` returns, in order: a literal `[self.a, self.b]`, or
+        `[getattr(self, n) for n in self.OPERANDS]` over a class-level constant tuple (resolved along the MRO of `cname`, so a
+        shared args() with per-class OPERANDS works); None when args() is something else (PseudoInstruction: `self.args`)."""
         for c in self.mro(cname):
             ci = self.classes[c]
             if 'args' in ci.methods:
-                return ci.args_attrs
+                if ci.args_attrs is not None:
+                    return ci.args_attrs
+                return self._args_by_names(cname, ci.methods['args'])
+        return None
+
+    def class_constant(self, cname, attr):
+        """Folded value of a class-level assignment `attr = <constant>` found along the MRO of cname, or None."""
+        for c in self.mro(cname):
+            for st in self.classes[c].node.body:
+                if isinstance(st, ast.Assign) and any(isinstance(t, ast.Name) and t.id == attr for t in st.targets):
+                    return try_fold(st.value, self.consts)
+        return None
+
+    def _args_by_names(self, cname, m):
+        body = [b for b in m.body if not (isinstance(b, ast.Expr) and isinstance(b.value, ast.Constant))]
+        if len(body) != 1 or not isinstance(body[0], ast.Return) or len(m.args.args) != 1:
+            return None
+        me = m.args.args[0].arg
+        v = body[0].value
+        if isinstance(v, ast.Call) and isinstance(v.func, ast.Name) and v.func.id in ('list', 'tuple') and len(v.args) == 1 and not v.keywords:
+            v = v.args[0]
+        if not isinstance(v, (ast.ListComp, ast.GeneratorExp)) or len(v.generators) != 1:
+            return None
+        g = v.generators[0]
+        if g.ifs or g.is_async or not isinstance(g.target, ast.Name):
+            return None
+        e = v.elt
+        if not (isinstance(e, ast.Call) and isinstance(e.func, ast.Name) and e.func.id == 'getattr' and len(e.args) == 2 and not e.keywords
+                and isinstance(e.args[0], ast.Name) and e.args[0].id == me and isinstance(e.args[1], ast.Name) and e.args[1].id == g.target.id):
+            return None
+        src = g.iter
+        names = None
+        if isinstance(src, ast.Attribute):
+            base = src.value
+            is_self = isinstance(base, ast.Name) and base.id == me
+            is_type = (isinstance(base, ast.Call) and isinstance(base.func, ast.Name) and base.func.id == 'type' and len(base.args) == 1
+                       and isinstance(base.args[0], ast.Name) and base.args[0].id == me) or \
+                      (isinstance(base, ast.Attribute) and base.attr == '__class__' and isinstance(base.value, ast.Name) and base.value.id == me)
+            if is_self or is_type:
+                names = self.class_constant(cname, src.attr)
+            elif isinstance(base, ast.Name) and base.id in self.classes:
+                names = self.class_constant(base.id, src.attr)
+        else:
+            names = try_fold(src, self.consts)
+        if isinstance(names, (list, tuple)) and all(isinstance(n, str) for n in names):
+            return list(names)
         return None
 
     # -- mnemonic tables -------------------------------------------------------------------------
